@@ -41,38 +41,19 @@ Definition script_ok (m : mode) (s : list hop) : bool :=
 
 Definition is_root (p : path) : bool := match p with [] => true | _ => false end.
 
-(* 'r+b' on a missing file in an existing directory: MemoryPathIO creates it (F06) *)
-Definition rpb_creates (t : node) (p : path) : bool :=
-  match lookup p t, unsnoc p with
-  | None, Some (pp, _) => m_is_dir t pp
-  | _, _ => false
-  end.
-
 Definition open_ok (t : node) (p : path) (m : mode) (s : list hop) : bool :=
   script_ok m s &&
   match m with
-  | RPB => negb (rpb_creates t p)
   | WB | AB => negb (is_root p)
   | _ => true
   end.
 
-(* rename: the source exists and (destination parent is a file | destination inside the source) (F07) *)
-Definition ren_bad (t : node) (a b : path) : bool :=
-  match lookup a t, unsnoc b with
-  | Some _, Some (bp, _) =>
-      match lookup bp t with
-      | Some (File _) => true
-      | Some (Dir _) => is_prefix a bp
-      | None => false
-      end
-  | _, _ => false
-  end.
-
-(* rename onto a missing destination (what RNTO's guard establishes), source <> destination (F17),
-   neither of the F07 shapes; renaming over an existing entry follows rename(2)'s type rules on
-   disk and replaces unconditionally in memory: outside the domain *)
+(* rename onto a missing destination (what RNTO's guard establishes); renaming over an existing
+   entry follows rename(2)'s type rules on disk and replaces unconditionally in memory: outside the
+   domain.  (Before the repair of MemoryPathIO.rename the domain also had to exclude source ==
+   destination, a destination below a file and a destination inside the source: F17, F07b, F07a.) *)
 Definition rename_ok (t : node) (a b : path) : bool :=
-  negb (is_root a) && negb (m_exists t b) && negb (path_eqb a b) && negb (ren_bad t a b).
+  negb (is_root a) && negb (m_exists t b).
 
 Definition api_ok (t : node) (o : fsop) : bool :=
   match o with
